@@ -268,6 +268,12 @@ func (s *Store) CARootSetCAS(idx, cidx uint64, rs []*structs.CARoot) (bool, erro
 	tx := s.db.WriteTxn(idx)
 	defer tx.Abort()
 
+	// Report a stale index to the caller: caRootSetCASTxn leaves the roots
+	// alone in that case, and that must not be reported as a successful set.
+	if midx := maxIndexTxn(tx, tableConnectCARoots); midx != cidx {
+		return false, nil
+	}
+
 	if err := caRootSetCASTxn(tx, idx, cidx, rs); err != nil {
 		return false, err
 	}
